@@ -48,6 +48,18 @@ def hx(b):
     return b.hex() if b else "-"
 
 
+SPECDUMP = os.path.join(LEAN_DIR, ".lake", "build", "bin", "specdump")
+
+
+def load_spec():
+    """the hand-transcribed specification tables (Lean `Spec.*`), via the specdump executable,
+    which depends on nothing generated"""
+    p = subprocess.run([SPECDUMP], stdout=subprocess.PIPE, stderr=subprocess.PIPE, timeout=120)
+    if p.returncode != 0:
+        raise RuntimeError("specdump failed: " + p.stderr.decode()[:300])
+    return json.loads(p.stdout.decode())
+
+
 def run_driver(lines, timeout=1800):
     """feed op lines to the compiled model driver, return the list of result lines"""
     if not os.path.exists(DRIVER):
